@@ -10,7 +10,7 @@
 (* oracle (Newton start did not verify = machinery), closed_form (1 um),   *)
 (* angle_classes, lon_range, closure.                                      *)
 (***************************************************************************)
-EXTENDS Cart, Ellipsoids, Json, IOUtils, Sequences, TLC
+EXTENDS Cart, Ellipsoids, Trig, Json, IOUtils, Sequences, TLC
 
 Data   == JsonDeserialize(IOEnv.TRACE_FILE)
 Traces == Data.traces
@@ -34,6 +34,18 @@ FwdClause(ev) ==
           ELSE IF ~ev.same THEN "angle_classes"
           ELSE ""
 
+\* the closed form at ANY latitude / longitude given in degrees: sines and cosines from the specification's own series (Trig)
+FwdAnyClause(ev) ==
+  LET a == FromJ(ev.a) invf == FromJ(ev.invf)
+      f == Flattening(invf, FromJ(ev.f0))
+      e2 == Ecc2(f)
+  IN Let(SinCosDeg(FromJ(ev.latdeg)), LAMBDA p : Let(SinCosDeg(FromJ(ev.londeg)), LAMBDA q :
+     Let(RS(e2, p[1], FromJ(ev.r0)), LAMBDA rs :
+         IF ~(FlatteningOK(invf, f) /\ RSOK(e2, p[1], rs)) THEN "oracle"
+         ELSE IF ~ConstantsOK(ev.ell, a, invf) THEN "shipped_ellipsoid_constants"
+         ELSE IF ~Close3(Vec(ev.out), Fwd2(Mul(a, rs), e2, FromJ(ev.h), p[1], p[2], q[2], q[1]), Um1) THEN "closed_form"
+         ELSE "")))
+
 InvClause(ev) ==
   IF ~(Leq(FromJ(ev.lon), Deg180) /\ Geq(FromJ(ev.lon), Neg(Deg180))) THEN "lon_range"
   ELSE IF ~Close3(Vec(ev.back), Vec(ev.in), Mm002) THEN "closure"
@@ -42,7 +54,8 @@ InvClause(ev) ==
 TraceInit == tid \in 1..Len(Traces) /\ l = 1 /\ dead = FALSE
 Step == /\ ~dead /\ l <= Len(T.ev)
         /\ LET ev == T.ev[l] IN
-           \E f \in {IF ev.exc # "" THEN "raised" ELSE IF ev.k = "Fwd" THEN FwdClause(ev) ELSE InvClause(ev)} :
+           \E f \in {IF ev.exc # "" THEN "raised" ELSE IF ev.k = "Fwd" THEN FwdClause(ev)
+                      ELSE IF ev.k = "FwdAny" THEN FwdAnyClause(ev) ELSE InvClause(ev)} :
               /\ (IF f = "" THEN TRUE ELSE Report(ev.k \o "." \o f))
               /\ dead' = (f # "")
         /\ l' = l + 1 /\ UNCHANGED tid
